@@ -57,6 +57,7 @@ pub fn worker_main() {
             "parse" => run::parse_tree(text),
             "tokens" => crate::lexfam::tokens_json(text),
             "session" => crate::session::run_session(&req),
+            "threads" => crate::purefam::run_threads(&req),
             "gcops" => crate::gcfam::run_gcops(&req),
             "enc" => crate::encfam::run_enc(&req),
             _ => json!({"error":"unknown op"}),
